@@ -261,8 +261,10 @@ class Pool:
         self.workers = []
 
 
-def explore(pool, prog, bound, opts, oracle_name, batch=24):
-    """All executions of ``prog`` with at most ``bound`` deviations."""
+def explore(pool, prog, bound, opts, oracle_name, batch=24, time_limit=None):
+    """All executions of ``prog`` with at most ``bound`` deviations.  With a time limit the
+    first-level subtrees are dispatched in rounds and the exploration stops between rounds once
+    the limit is passed: the summary then says how many of them were explored (partial)."""
     oracle = _oracle(oracle_name)
     summ = Summary()
     o = dict(opts)
@@ -274,6 +276,18 @@ def explore(pool, prog, bound, opts, oracle_name, batch=24):
         bsz = batch if bound == 1 else max(1, batch // 8)
         for i in range(0, len(level1), bsz):
             tasks.append((prog, [list(map(list, p)) for p in level1[i:i + bsz]], bound, opts))
-        summ.merge(pool.run(tasks))
+        summ.subtrees_total = len(tasks)
+        summ.subtrees_done = 0
+        if time_limit is None:
+            summ.merge(pool.run(tasks))
+            summ.subtrees_done = len(tasks)
+        else:
+            t0 = time.time()
+            rnd = max(4 * pool.nproc, 16)
+            for i in range(0, len(tasks), rnd):
+                if i and time.time() - t0 > time_limit:
+                    break
+                summ.merge(pool.run(tasks[i:i + rnd]))
+                summ.subtrees_done = min(len(tasks), i + rnd)
     summ.root_decisions = len(root.alts_log)
     return summ
